@@ -198,13 +198,10 @@ Definition add_edges_from (eb : ebunch) (a : attrs) (s : hg) : res :=
               else if is_none idx then raise s XGIError
               else ok (bump_uid idx (insert_edge idx members [] s))) l s
   | EB1 l =>
-      match l with
-      | [] :: _ => raise s IndexError            (* list(first_edge)[0] *)
-      | _ =>
-          loop (fun s members =>
-                  let idx := LInt (h_uid s) in
-                  bulk_item false a (with_uid s (h_uid s + 1)) members idx []) l s
-      end
+      (* an empty first edge is read as a plain edge *)
+      loop (fun s members =>
+              let idx := LInt (h_uid s) in
+              bulk_item false a (with_uid s (h_uid s + 1)) members idx []) l s
   | EB2 l => loop (fun s it => let '(m, i) := it in bulk_item true a s m i []) l s
   | EB3 l =>
       loop (fun s it =>
